@@ -51,6 +51,11 @@ class Gen:
         self.w = w
         self.nops = 0
         self.maxdim = self.opts.get("maxdim", 600 if tier == "quick" else 2000)
+        if tier == "thorough":
+            # wider worlds on the thorough tier
+            self.opts = dict(self.opts)
+            self.opts["env_max"] = self.opts.get("env_max", 3) + 1
+            self.opts["cus_max"] = max(self.opts.get("cus_max", 2), 2) + (1 if self.opts.get("cus_max", 2) > 0 else 0)
 
     # ------------------------------------------------------------------ random pieces
     def ch(self, seq):
